@@ -104,6 +104,109 @@ def tight_tables(measure, threshold, sizes, op='>=', shuffle_rng=None, extra_ove
     return L, R, groups
 
 
+# ----------------------------------------------------------------------------- huge records
+
+def huge_tables(n, diff=3):
+    """Two 3-row tables; row 0 of each holds n tokens of which all but `diff` are shared (token counts
+    beyond 2**8, 2**15, 2**16 wrap narrow integer arrays and overflow fixed-size buffers), the other
+    rows are ordinary short values (one of them equal on both sides)."""
+    shared = ['t%d' % i for i in range(n - diff)]
+    lt = shared + ['lx%d' % i for i in range(diff)]
+    rt = ['ry%d' % i for i in range(diff)] + shared
+    L = T.table_spec(['id', 's'], [[0, ' '.join(lt)], [1, 'a b c'], [2, 'q r']], dtypes={'s': 'object'})
+    R = T.table_spec(['id', 's'], [[0, ' '.join(rt)], [1, 'a b d'], [2, 'q r']], dtypes={'s': 'object'})
+    return L, R
+
+
+# ----------------------------------------------------------------------------- W4 exact scores
+
+_EXACT = {}
+
+
+def exact_score_groups(measure, max_size=64):
+    """{t: [(a, b, o), ...]}: every threshold t that IS the double-precision score of some pair of
+    sets (sizes a <= b <= max_size sharing o tokens) with the pairs scoring exactly t.  Joining at
+    such a t puts pairs of large sets exactly on the boundary -- where an algebraically equivalent
+    rewrite of the comparison (o >= t*min(a,b), o*o >= t*t*a*b, ...) rounds differently; the first
+    disagreements need sets of 20+ tokens."""
+    key = (measure, max_size)
+    if key not in _EXACT:
+        d = {}
+        for a in range(1, max_size + 1):
+            for b in sorted(set([a, a + 1, a + 2, a + 5, 2 * a, max_size])):
+                if b < a or b > max_size:
+                    continue
+                for o in range(1, a + 1):
+                    for t in model.raw_scores(measure, a, b, o):
+                        d.setdefault(t, []).append((a, b, o))
+        _EXACT[key] = d
+    return _EXACT[key]
+
+
+def exact_score_tables(measure, t, rng, max_size=64, limit=14):
+    """Tables for one exact-score threshold: the pairs scoring exactly t (a sample, the largest sets
+    first), for each also the pair with one shared token fewer and one more, and both orientations."""
+    triples = list(exact_score_groups(measure, max_size)[t])
+    triples.sort(key=lambda x: (not rewrite_sensitive(measure, t, *x), -x[0]))
+    triples = triples[:limit // 2] + rng.sample(triples[limit // 2:], min(len(triples) - limit // 2, limit // 2)) \
+        if len(triples) > limit else triples
+    groups = []
+    for (a, b, o) in triples:
+        for oo in (o, o - 1, o + 1):
+            if 1 <= oo <= min(a, b):
+                groups.append((a, b, oo))
+                if a != b:
+                    groups.append((b, a, oo))
+    lrows, rrows = [], []
+    for gid, (a, b, o) in enumerate(groups):
+        g = 'g%d' % gid
+        shared = ['%ss%d' % (g, i) for i in range(o)]
+        lt = shared + ['%sx%d' % (g, i) for i in range(a - o)]
+        rt = shared + ['%sy%d' % (g, i) for i in range(b - o)]
+        rng.shuffle(lt)
+        rng.shuffle(rt)
+        lrows.append([gid, ' '.join(lt)])
+        rrows.append([gid, ' '.join(rt)])
+    L = T.table_spec(['id', 's'], lrows, dtypes={'s': 'object'})
+    R = T.table_spec(['id', 's'], rrows, dtypes={'s': 'object'})
+    return L, R, groups
+
+
+def rewrite_sensitive(measure, t, a, b, o):
+    """True when some algebraically equivalent form of `score >= t` evaluates differently from the
+    division at this exact-score point (the product rounds to the other side of the integer)."""
+    if measure == 'OVERLAP_COEFFICIENT':
+        return t * min(a, b) != o
+    if measure == 'JACCARD':
+        return t * (a + b - o) != o or (t / (1 + t)) * (a + b) != o or t * (a + b) / (1 + t) != o
+    if measure == 'DICE':
+        return t * (a + b) != 2 * o or t * (a + b) / 2 != o or (t / 2) * (a + b) != o
+    if measure == 'COSINE':
+        return t * math.sqrt(a * b) != o or t * t * a * b != o * o or \
+            t * math.sqrt(a) * math.sqrt(b) != o
+    return False
+
+
+def exact_score_plan(rng, measures, per_measure, max_size=64):
+    """[(measure, t, op)]: per measure a seeded sample of its exact-score thresholds: first the
+    rewrite-sensitive ones (up to 3/4 of the budget; all of them when per_measure is None), then
+    thresholds attained by pairs of large sets, then the rest."""
+    out = []
+    for m in measures:
+        d = exact_score_groups(m, max_size)
+        ths = sorted(t for t in d if t < 1.0)
+        sens = [t for t in ths if any(rewrite_sensitive(m, t, a, b, o) for a, b, o in d[t])]
+        sset = set(sens)
+        rest = [t for t in ths if t not in sset]
+        if per_measure is not None:
+            k = min(len(sens), per_measure - per_measure // 4)
+            sens = rng.sample(sens, k)
+            rest = rng.sample(rest, min(len(rest), per_measure - k))
+        for i, t in enumerate(sens + rest):
+            out.append((m, t, ('>=', '>=', '=', '>=', '>')[i % 5]))
+    return out
+
+
 # ----------------------------------------------------------------------------- W2 arrangements
 
 def arrangements(a, b, o):
@@ -262,6 +365,14 @@ def random_table_pair(rng, tok=None, max_rows=12, missing=0.1, dup_rate=0.2, ext
     if extras and rng.random() < 0.3:
         lcols_extra = lcols_extra + ['lx col!_str']            # not a valid Python identifier
         rcols_extra = rcols_extra + ['class', '1rx_int']
+    if extras:
+        # sometimes the tables hold nothing (or little) beyond the key and the join attribute, so that
+        # a call can name every column of a table
+        r = rng.random()
+        if r < 0.12:
+            lcols_extra, rcols_extra = [], []
+        elif r < 0.24:
+            lcols_extra, rcols_extra = [rng.choice(lcols_extra)], [rng.choice(rcols_extra)]
     key_kind = key_kind or rng.choice(['int', 'int_shuffled', 'str', 'int_sparse', 'numstr', 'float', 'neg', 'mixed', 'bigint'])
     pool_vals = [random_value(rng, tok, vocab, zipf, max_tokens) for _ in range(6)]
     for side, extra in (('l', lcols_extra), ('r', rcols_extra)):
@@ -318,7 +429,7 @@ def random_table_pair(rng, tok=None, max_rows=12, missing=0.1, dup_rate=0.2, ext
                 data[c] = [None if rng.random() < 0.2 else 'v%d' % rng.randint(0, 3)
                            for _ in range(n)]
                 dtypes[c] = 'object'
-        if extra and rng.random() < 0.5:
+        if rng.random() < 0.5:
             rng.shuffle(cols)
         ik = index_kind or rng.choice(['range', 'range', 'shuffled', 'str', 'offset', 'dup', 'const'])
         if ik == 'range':
@@ -342,6 +453,11 @@ def random_table_pair(rng, tok=None, max_rows=12, missing=0.1, dup_rate=0.2, ext
 def random_out_attrs(rng, spec, key, attr):
     r = rng.random()
     others = [c for c in spec['cols']]
+    if len(others) <= 4 and rng.random() < 0.3:
+        # every remaining column, in an order of its own
+        sel = [c for c in others if c not in (key, attr)]
+        rng.shuffle(sel)
+        return sel
     if r < 0.3:
         return None
     if r < 0.4:
